@@ -99,6 +99,17 @@ Definition Dp (cfg : config) (im : image) : bool :=
   forallb (fun s => forallb (entry_ok cfg) (slot_es s) && layer_okp [] (slot_es s)) (all_slots im) &&
   cross_okp [] (rev (all_slots im)).
 
+(* for the last view (the final pruning removes the whiteout nodes with pathtree.Remove, which also drops
+   a nested directory that loses its last child): the nested parent of every whiteout target keeps an
+   entry in the final overlay *)
+Definition prune_safe_p (cfg : config) (im : image) : bool :=
+  let fin := view_spec cfg im (length (init_slots im) - 1) in
+  forallb (fun s => forallb (fun e => negb (e_whf e) ||
+                                      match e_vsegs e with
+                                      | _ :: _ :: _ :: _ => match s_children fin (removelast (e_vsegs e)) with [] => false | _ => true end
+                                      | _ => true
+                                      end) (slot_es s)) (all_slots im).
+
 (* ------------------------------------------------------------------ the closed form *)
 Inductive sres3 := RFound (j : nat) (e : entry) | RHidden | RNone.
 
